@@ -179,7 +179,15 @@ def check_read_message(ck):
     for n in all_assigns:
         if n.id in good or n.id not in server_reach:
             continue
-        # any other server-side assignment must not clear the flag
+        # any other server-side assignment must not clear the flag; a value the rule cannot read is not decided
+        v_ = n.ast.value
+        if isinstance(v_, ast.Name) and v_.id in binds:
+            v_ = binds[v_.id]
+        if isinstance(v_, ast.Call) and resolve_call(repo, fi, v_) is cka:
+            ck.ob(R, fi, n.ast, False, "the flag is the negation of the keep-alive decision")
+            continue
+        if not isinstance(n.ast.value, ast.Constant):
+            raise AnalysisError("_read_message: _disconnect_on_finish assigned from an expression the rule does not recognise (%s)" % q.unparse(n.ast)[:80])
         ck.ob(R, fi, n.ast, q.is_const(n.ast.value, True), "on the server the flag is only derived from _can_keep_alive (or forced True)")
     hdrs = [(n, c) for n, c in cfg.find(lambda x: isinstance(x, ast.Call) and q.call_attr(x) == "headers_received")]
     ck.floor(R, len(hdrs), 1, "delegate.headers_received calls")
